@@ -10,6 +10,9 @@
    (granularity 64/128/256, 1 or 3 pools, block size, padding on/off, immediate release on/off) is universally quantified. *)
 From Coq Require Import ZArith List Bool.
 From Verif Require Import Jit.JitModel Jit.JitBits Jit.JitBlockProofs Jit.JitProofs Jit.JitWitness.
+From Verif Require Import Jit.JitBytes Jit.JitFill Jit.JitCursorModel Jit.JitCursorProofs Jit.JitWords.
+From Verif Require Import Containers.BitVecModel.
+From Verif Require Import Jit.JitSpec Jit.JitSpecProofs.
 Import ListNotations.
 Local Open Scope Z_scope.
 
@@ -197,3 +200,126 @@ Theorem C09_reset_clears_refuted_pinned :
   acount (reset cfg_f (run cfg_f (init_state cfg_f) [OAlloc 256]) false) = 0.
 Proof. exact pinned_reset_keeps_count. Qed.
 Print Assumptions C09_reset_clears_refuted_pinned.
+
+(* ================================================================ round 2 *)
+
+(* ---------------------------------------------------------------- byte level (block size a multiple of the largest pool
+   granularity, as in every real configuration): a block's byte size is area x pool granularity, so the byte range of a
+   live span — offset s*g, length n*g, the same in the rx and the rw view — lies inside the block's mapping, behind the
+   padding granule.  (Would have made seeded change C09-1 a theorem-level obligation: see also C09_new_block_fits.) *)
+Theorem C09_span_bytes_inside : forall c st, cfg_ok_bytes c -> reach c st ->
+  forall b s n, In b (blocks st) -> In (s, n) (b_live b) ->
+  let g := pool_gran c (b_pool b) in
+  0 < g /\ b_pad b * g <= s * g /\ s * g + n * g <= b_bytes b /\ 1 * g <= n * g.
+Proof. exact span_bytes_inside. Qed.
+Print Assumptions C09_span_bytes_inside.
+
+Example C09_span_bytes_inside_hyps_sat : cfg_ok_bytes cfg_f3.
+Proof. constructor; [exact cfg_f3_ok|]. exists 256. reflexivity. Qed.
+
+(* ---------------------------------------------------------------- content layer (granule level; bytes = granules x pool
+   granularity of the block, `ev_bytes`).  fill_events = the ranges an operation overwrites with the fill pattern under
+   kFillUnusedMemory: released span, shrunk-away tail, whole new block, spans of blocks kept by a reset. *)
+Theorem C09_contents_kept : forall c st o, cfg_ok c -> reach c st -> valid_op c st o ->
+  forall id sp, In (id, sp) (all_live (blocks st)) -> In (id, sp) (all_live (blocks (fst (step c st o)))) ->
+  forall e k, In e (fill_events c st o) -> in_span sp k -> ~ in_ev e id k.
+Proof. exact contents_kept. Qed.
+Print Assumptions C09_contents_kept.
+
+Theorem C09_fill_covers : forall c st o, cfg_ok c -> reach c st -> valid_op c st o ->
+  forall id k, free_gran (fst (step c st o)) id k ->
+  free_gran st id k \/ exists e, In e (fill_events c st o) /\ in_ev e id k.
+Proof. exact fill_covers. Qed.
+Print Assumptions C09_fill_covers.
+
+(* ---------------------------------------------------------------- pool->cursor: the cursor-explicit semantics (insertBlock /
+   removeBlock / pool.reset update rules, alloc's loop starting at the cursor and wrapping) keeps "cursor = first block of
+   the pool" and therefore equals `step` — state and result — for every valid operation and history *)
+Theorem C09_cursor_is_first : forall c cs o,
+  cfg_ok c -> reach c (cs_st cs) -> Cinv c cs -> valid_op c (cs_st cs) o ->
+  cs_st (fst (cstep c cs o)) = fst (step c (cs_st cs) o) /\
+  snd (cstep c cs o) = snd (step c (cs_st cs) o) /\
+  Cinv c (fst (cstep c cs o)).
+Proof. exact cstep_eq. Qed.
+Print Assumptions C09_cursor_is_first.
+
+Theorem C09_cursor_histories : forall c ops, cfg_ok c -> forall cs, reach c (cs_st cs) -> Cinv c cs -> valid_hist c (cs_st cs) ops ->
+  cs_st (crun c cs ops) = run c (cs_st cs) ops /\ Cinv c (crun c cs ops).
+Proof. exact crun_eq. Qed.
+Print Assumptions C09_cursor_histories.
+
+Example C09_cursor_hyps_sat : Cinv cfg_f3 (init_cstate cfg_f3) /\ reach cfg_f3 (cs_st (init_cstate cfg_f3)).
+Proof. split; [apply Cinv_init; exact cfg_f3_ok|apply reach_init]. Qed.
+
+(* ---------------------------------------------------------------- word level (C18's generic-word-size models of the 64-bit
+   code; `repr W ws u`: the word vector ws represents the bit mask u).  For EVERY word size, vector and argument: *)
+Theorem C09_word_fill : forall W ws u i n,
+  0 < W -> words_ok W ws -> 0 <= i -> 0 <= n -> i + n <= W * zlen ws ->
+  repr W ws u -> repr W (bv_fill W ws i n) (set_range u i n).
+Proof. exact fill_repr. Qed.
+Print Assumptions C09_word_fill.
+
+Theorem C09_word_clear : forall W ws u i n,
+  0 < W -> words_ok W ws -> 0 <= i -> 0 <= n -> i + n <= W * zlen ws ->
+  repr W ws u -> repr W (bv_clear W ws i n) (clear_range u i n).
+Proof. exact clear_repr. Qed.
+Print Assumptions C09_word_clear.
+
+Theorem C09_word_set_bit : forall W ws u i (v : bool),
+  0 < W -> words_ok W ws -> 0 <= i < W * zlen ws ->
+  repr W ws u -> repr W (bv_set W ws i v) (if v then Z.setbit u i else Z.clearbit u i).
+Proof. exact set_bit_repr. Qed.
+Print Assumptions C09_word_set_bit.
+
+Theorem C09_word_index_of : forall W ws u start (v : bool),
+  0 < W -> words_ok W ws -> 0 <= start <= W * zlen ws -> repr W ws u ->
+  match bv_index_of W ws start v with
+  | Some r => find_bit u v start (W * zlen ws) = r
+  | None => find_bit u v start (W * zlen ws) = W * zlen ws
+  end.
+Proof. exact index_of_repr. Qed.
+Print Assumptions C09_word_index_of.
+
+(* the scan loop of alloc over the word-level BitVectorRangeIterator = the bit-level scan.  PARTIAL: proved by exhaustive
+   evaluation for word size 4 and all vectors of 1, 2 (all request sizes) and 3 words (sizes 1, 2, 4, 7), all windows whose
+   end is followed by no free granule in its word (what window soundness guarantees); the general statement for W = 64 is
+   tied by the differential runs (C09 exact offsets + cache state, C18 command R). *)
+Theorem C09_word_scan_partial :
+  wscan_explore 1 (zrange 1 5) = true /\ wscan_explore 2 (zrange 1 9) = true /\ wscan_explore 3 [1; 2; 4; 7] = true.
+Proof. exact wscan_eq_scan_small_scope. Qed.
+Print Assumptions C09_word_scan_partial.
+
+Theorem C09_word_scan_other_word_sizes_partial :
+  wscan_exploreW 3 3 (zrange 1 9) = true /\ wscan_exploreW 5 2 [1; 2; 3; 6] = true.
+Proof. exact wscan_eq_scan_other_word_sizes. Qed.
+Print Assumptions C09_word_scan_other_word_sizes_partial.
+
+(* without window soundness the word-level scan returns an index outside the window (the mechanism behind the out-of-block
+   span of DESIGN 7.13): words 0111b 0111b, window [0, 5), request 2 *)
+Theorem C09_word_scan_unsound_window_refuted :
+  wscan 4 [7; 7] 0 5 2 = Found 7 /\ scan (mask_of 4 [7; 7]) 0 5 2 = NotFound 3 4 1.
+Proof. exact wscan_unsound_window_refuted. Qed.
+Print Assumptions C09_word_scan_unsound_window_refuted.
+
+(* ---------------------------------------------------------------- the trace judge (JitSpec.v), run on the implementation's own
+   answers by `c09 spec`, independent of the model's placement: a trace it accepts keeps its live spans non-empty and pairwise
+   disjoint at every point, and every accepted alloc is >= the request, < one granule more, aligned to its pool's
+   granularity, behind the padding and inside the block's byte size *)
+Theorem C09_judge_sound : forall g0 pools pad, 0 < g0 -> forall evs live i final,
+  twf live -> spec_run g0 pools pad live evs i = Datatypes.inr final -> twf final.
+Proof. exact spec_run_sound. Qed.
+Print Assumptions C09_judge_sound.
+
+Theorem C09_judge_alloc : forall g0 pools pad live size blk off len bytes pool,
+  0 < g0 -> alloc_ok g0 pools pad live size blk off len bytes pool = true ->
+  let g := g0 * 2 ^ pool in
+  1 <= size <= len /\ len < size + g0 /\ 0 <= pool < pools /\ len mod g = 0 /\ off mod g = 0 /\
+  pad * g <= off /\ off + len <= bytes /\
+  forall s, In s live -> disjoint_spans (blk, (off, len)) s.
+Proof. exact alloc_ok_sound. Qed.
+Print Assumptions C09_judge_alloc.
+
+Example C09_judge_not_vacuous :
+  spec_run 64 1 1 [] [EAlloc 100 0 64 128 131072 0; EAlloc 64 0 128 64 131072 0] 0 = Datatypes.inl 1 /\
+  spec_run 64 1 1 [] [EAlloc 131009 0 64 131072 131072 0] 0 = Datatypes.inl 0 /\ twf [].
+Proof. exact (conj spec_rejects_overlap (conj spec_rejects_outside_block twf_nil)). Qed.
